@@ -469,6 +469,12 @@ def build_instance_tree(
             for arg in sym_arguments:
                 if arg.value.component.indices != [[None]]:
                     raise Exception("Subscripting modifiers is not allowed.")
+                if arg.value.component.child:
+                    # Dotted attribute name: "x.start = 1" means "x(start = 1)",
+                    # not a binding of x itself.
+                    arg.value.component = arg.value.component.child[0]
+                    sym_mod.arguments.append(arg)
+                    continue
                 for el_arg in arg.value.modifications:
                     # Behavior is different depending on whether the value is
                     # being set (which is an unnamed field not explicitly
@@ -522,6 +528,11 @@ def build_instance_tree(
                     raise Exception("Subscripting modifiers is not allowed.")
 
                 if inheriting_from_builtin:
+                    if arg.value.component.child:
+                        # Dotted attribute name, see above
+                        arg.value.component = arg.value.component.child[0]
+                        sym_mod.arguments.append(arg)
+                        continue
                     for el_arg in arg.value.modifications:
                         if not isinstance(el_arg, ast.ClassModification):
                             # If the value is being set, we make a new class
